@@ -884,8 +884,104 @@ func (p c13) listRoots(e *c13env) {
 	}
 }
 
+var c13DirectedModule *meta.Module
+
+type c13Item struct{ Id, Name string }
+type c13Root struct {
+	L  []*c13Item
+	S  string
+	Sl []string
+	Nl []*struct {
+		B []byte
+		C string
+	}
+	C *struct{ S string }
+	I []*struct {
+		I int
+		V string
+	}
+	U []*struct {
+		U uint16
+		V string
+	}
+}
+
+// directed: request content and Go values at the edges of what the reflection nodes hold: an empty string as key, a key of a
+// type no Go map can be indexed by, a length bound beyond int64, a value read through a container that is not there, a keyed Go
+// map whose key type is narrower than what the library converts to
+func (p c13) directed(e *c13env) {
+	if c13DirectedModule == nil {
+		m, err := parser.LoadModuleFromString(nil, `module x { namespace "urn:x"; prefix x;
+  list l { key id; leaf id { type string; } leaf name { type string; } }
+  leaf s { type string { length "1..18446744073709551615"; } }
+  leaf-list sl { type string { length "0..18446744073709551615"; } }
+  list nl { key b; leaf b { type binary; } leaf c { type string; } }
+  container c { leaf s { type string; } }
+  list i { key i; leaf i { type int32; } leaf v { type string; } }
+  list u { key u; leaf u { type uint16; } leaf v { type string; } } }`)
+		if err != nil {
+			e.c.Violate("harness/directed-module", "%v", err)
+			return
+		}
+		c13DirectedModule = m
+	}
+	m := c13DirectedModule
+	stores := map[string]func() node.Node{
+		"reflect-struct": func() node.Node { return nodeutil.ReflectChild(&c13Root{}) },
+		"node-struct":    func() node.Node { return &nodeutil.Node{Object: &c13Root{}} },
+		"reflect-map":    func() node.Node { return nodeutil.ReflectChild(map[string]interface{}{}) },
+		"node-map":       func() node.Node { return &nodeutil.Node{Object: map[string]interface{}{}} },
+		"reflect-typed-maps": func() node.Node {
+			return nodeutil.ReflectChild(map[string]interface{}{"i": map[int32]interface{}{5: map[string]interface{}{"i": 5, "v": "x"}}, "u": map[uint16]interface{}{7: map[string]interface{}{"u": 7, "v": "y"}}})
+		},
+		"node-typed-maps": func() node.Node {
+			return &nodeutil.Node{Object: map[string]interface{}{"i": map[int32]interface{}{5: map[string]interface{}{"i": 5, "v": "x"}}, "u": map[uint16]interface{}{7: map[string]interface{}{"u": 7, "v": "y"}}}}
+		},
+	}
+	for sname, mk := range stores {
+		requests := []struct{ kind, doc string }{
+			{"empty-string-key", `{"l":[{"id":"","name":"n1"},{"id":"b","name":"n2"}]}`},
+			{"length-bound-beyond-int64", `{"s":"abc","sl":["a","bc"]}`},
+			{"binary-key", `{"nl":[{"b":"aGVsbG8=","c":"1"},{"b":"AA==","c":"2"}]}`},
+			{"narrow-keyed-map", `{"i":[{"i":5,"v":"changed"},{"i":6,"v":"new"}],"u":[{"u":7,"v":"changed"}]}`},
+		}
+		for _, rq := range requests {
+			if strings.Contains(sname, "struct") && rq.kind != "empty-string-key" {
+				continue
+			}
+			b := node.NewBrowser(m, mk())
+			doc := rq.doc
+			e.try("directed", rq.kind+"/"+sname, doc, true, func() error {
+				n, err := nodeutil.ReadJSON(doc)
+				if err != nil {
+					return err
+				}
+				if err = b.Root().UpsertFrom(n); err != nil {
+					return err
+				}
+				// whatever was accepted can be read and addressed
+				if _, err = nodeutil.WriteJSON(b.Root()); err != nil {
+					return err
+				}
+				for _, pth := range []string{"l=b", "l=", "nl=aGVsbG8%3D", "i=5", "i=6", "u=7", "u=8"} {
+					if _, err := b.Root().Find(pth); err != nil {
+						return err
+					}
+				}
+				return nil
+			})
+		}
+		b := node.NewBrowser(m, mk())
+		for _, pth := range []string{"c/s", "l=zz/name", "i=99/v", "c", "zz/s"} {
+			pp := pth
+			e.try("directed", "GetValue-thru-absent-node/"+sname, pp, true, func() error { _, err := b.Root().GetValue(pp); return err })
+		}
+	}
+}
+
 func (p c13) selectionOps(e *c13env, leafPaths []string) {
 	p.listRoots(e)
+	p.directed(e)
 	targets := []string{""}
 	for _, ap := range e.t.AllPaths() {
 		if plainKeys(ap) {
